@@ -396,4 +396,27 @@ _upd('C19', engine='E2 tables + E4', technique=(
      text_add=('O-extract: arrays, objects (key spellings, repeated keys), var / assignment bindings and programs combine the values of their parts '
                'exactly as JSON does, for children that are opaque or the falsy / empty / non-empty value of each JSON class.'))
 
+# ---- third round ------------------------------------------------------------------------------------------------------
+_upd('C01', text_add='Imported: the ownership obligations of C14 (a print leaves nothing behind in the printer); bounded: abandoned and interleaved prints '
+                     'through one printer object, then the fixpoint.')
+_upd('C02', text_add=('O-semi (depth 2): for every statement production ending in `;` x 19 contexts (followed by a statement, last in a block / function / '
+                      'program / case clause, before else / while, body of while / for / for-in / with / label) the terminator is printed unless `}` or the '
+                      'end of the text follows, and an empty statement that is a body keeps its `;` (failures = finding F9). O-print is also run on nodes '
+                      'whose every terminal carries captured comments: the minifier prints none of them.'))
+_upd('C03', text_add='Imported: the lexer-state contracts of C04 / C05 (auto_semi, _set_tokens, _get_update_token, backtracked_token, p_error, _token).')
+_upd('C08', text_add='Imported: line-terminator pattern obligations of C06; ownership obligations of C14 (the source stack of a walk does not outlive it).')
+_upd('C09', text_add='Imported: the VLQ contracts and executable contracts of C10 (the mappings string is written with them).')
+_upd('C10', text_add=('P3: decode_mappings(encode_mappings(m)) == m for every shape of <= 2 lines x <= 2 segments of symbolic integer lists (length >= 1), '
+                      'the two functions verified in place through a stated model of str.join / str.split whose side conditions (no part contains the '
+                      'separator) are obligations.'),
+     note=('Trusted: Python int = SMT Int; bit operators rewritten by laws BL1-BL5 (side conditions proved, laws themselves re-checked in CPython on a finite '
+           'range only); alphabet strings represented by digit sequences through the concretely checked bijection INT_B64/B64_INT; model of '
+           'generator-expression + str.join; the join/split model of P3; z3 (cvc5 cross-check in the thorough tier). Mappings of other shapes: bounded.'))
+_upd('C11', text_add='Imported: line-terminator pattern obligations of C06.')
+_upd('C17', text_add='Added: validate_imports (every importable tab module is gone from sys.modules afterwards), generate_tab_names for installed x assumed ply '
+                     'versions, and the helper run in a fresh process must leave the modules the parser loads.')
+_upd('C07', text_add='Added: closed-world scope-marker obligation (no definition other than function / variable / parameter / catch / identifier forms declares, '
+                     'resolves or opens a scope: labels and property names are never renamed).')
+_upd('C19', text_add='Tables extended: every JSON escape followed by every printable ASCII character, strings with format characters, all with fold_ops off and on.')
+
 NOT_APPLICABLE = {}
